@@ -27,6 +27,15 @@ def instr(name):
         return {'prim': 'CREATE_CONTRACT', 'args': [[
             {'prim': 'parameter', 'args': [U]}, {'prim': 'storage', 'args': [U]},
             {'prim': 'code', 'args': [[{'prim': 'CDR'}, {'prim': 'NIL', 'args': [{'prim': 'operation'}]}, {'prim': 'PAIR'}]]}]]}
+    if name == 'EMIT':
+        return {'prim': 'EMIT', 'annots': ['%tag'], 'args': [U]}
+    if name == 'VIEW':
+        return {'prim': 'VIEW', 'args': [{'string': 'other'}, U]}
+    if name == 'CONTRACT':
+        return {'prim': 'CONTRACT', 'args': [U]}
+    if '%' in name or '@' in name:            # annotated form of an instruction, e.g. SELF%ep, SET_DELEGATE@op
+        i = min(j for j in (name.find('%'), name.find('@')) if j >= 0)
+        return {**instr(name[:i]), 'annots': [name[i:]]}
     return {'prim': name}
 
 
@@ -38,6 +47,7 @@ CONTAINERS = {
     'IF-else': (False, lambda b: {'prim': 'IF', 'args': [[], b]}),
     'IF_NONE': (False, lambda b: {'prim': 'IF_NONE', 'args': [b, [{'prim': 'DROP'}]]}),
     'IF_LEFT': (False, lambda b: {'prim': 'IF_LEFT', 'args': [[{'prim': 'DROP'}], b]}),
+    'IF_CONS': (False, lambda b: {'prim': 'IF_CONS', 'args': [b, []]}),
     'LOOP': (False, lambda b: {'prim': 'LOOP', 'args': [b]}),
     'LOOP_LEFT': (False, lambda b: {'prim': 'LOOP_LEFT', 'args': [b]}),
     'ITER': (False, lambda b: {'prim': 'ITER', 'args': [b]}),
@@ -54,6 +64,10 @@ CONTAINERS = {
 }
 DEEP = ('DIP', 'IF-else', 'block', 'LAMBDA', 'LAMBDA_REC', 'PUSH-lambda', 'PUSH-pair-lambda')
 LEAVES = ('SELF',) + RESTRICTED + ('DROP',)
+# added after the audit of over-specific inputs (before: the only ALLOWED leaf was DROP and no instruction carried an annotation):
+# allowed instructions whose names or effects are close to the forbidden ones, and annotated forms of the forbidden ones
+NEAR_LEAVES = ('SELF_ADDRESS', 'EMIT', 'VIEW', 'CONTRACT', 'IMPLICIT_ACCOUNT', 'ADDRESS', 'SENDER', 'SELF%ep', 'SELF@me',
+               'TRANSFER_TOKENS@op', 'SET_DELEGATE@op', 'CREATE_CONTRACT@op')
 POSITIONS = ('only', 'last', 'first')
 
 
@@ -209,6 +223,12 @@ def run_R(ck: Check):
                     code = build(path, leaf, pos)
                     run('v1', code, f'code depth={d} kinds={kinds} path={"/".join(path) if d <= 2 else kinds} leaf={leaf} {pos}',
                         w_code(path, leaf), sample=(d == 2 and kinds == 'nL' and leaf == 'SET_DELEGATE'))
+    # ---- near-miss and annotated leaves: alone, under every single container, and under every pair of the DEEP containers
+    for path in [()] + [(c,) for c in names_all] + list(itertools.product(DEEP, repeat=2)):
+        kinds = ''.join('L' if CONTAINERS[c][0] else 'n' for c in path)
+        for leaf in NEAR_LEAVES:
+            for pos in POSITIONS[:2]:
+                run('v3', build(path, leaf, pos), f'code near-miss depth={len(path)} path={"/".join(path)} leaf={leaf} {pos}', w_code(path, leaf))
     # ---- two subtrees side by side (a flag must not leak from one to the next)
     shallow = [()] + [(c,) for c in names_all]
 
